@@ -115,7 +115,7 @@ Example C08_closed_program_evaluates :
 Proof. exact EvalProofs.ex_closed_evaluates. Qed.
 
 Theorem C08_typed_evaluation_is_lexical : forall E P rs n,
-  Typing.wt_progb E P rs = true -> Eval.closed_prog P -> forallb (Eval.closed []) rs = true ->
+  Typing.wt_progb E P rs = true -> Eval.closed_prog P ->
   Eval.eval_program false P n rs = Eval.eval_program true P n rs.
 Proof. exact TermProofs.typed_evaluation_is_lexical. Qed.
 Print Assumptions C08_typed_evaluation_is_lexical.
